@@ -427,7 +427,11 @@ theorem readAttribute_spec (tag : Tag) (st : St) :
             obtain ⟨hd2, hdl⟩ := parseAttrName_spec buf p d hpn
             have hd : (Xmp.discard d s1) = (.ok (), { s1 with rest := s1.rest.drop d }) := rfl
             rw [bind_ok _ _ _ _ _ hd]
-            have hR := (OK.attrRest tag p).at { s1 with rest := s1.rest.drop d }
+            have hR : OKat (skipAttrWs (st.rest.length + 2) >>= fun _ => (do let (v, tag') ← Xmp.readAttrValue tag 8 256; (Pure.pure ({ pt := 1, parent := tag.self, self := p, val := v }, tag') : M (Tok × Tag)))) { s1 with rest := s1.rest.drop d } := by
+              apply OKat.bind (show OKat (skipAttrWs (st.rest.length + 2)) { s1 with rest := s1.rest.drop d } from
+                (skipAttrWs_spec (st.rest.length + 2) { s1 with rest := s1.rest.drop d } (by simp only [List.length_drop]; omega)).1)
+              intro x s' _
+              exact (OK.attrRest tag p).at s'
             unfold OKat at hR
             have hdl2 : ({ s1 with rest := s1.rest.drop d } : St).rest.length + d = s1.rest.length := by
               simp only [List.length_drop]; omega
